@@ -182,8 +182,17 @@ class PoolGen:
         for _ in range(2):
             self.point(other)
         if rng.random() < 0.3:
+            # objects of the projective line: points (also complex: CP1), a 2x2 transformation, collections
             self.add("point", [self.ivec(1) + [1]], {"how": "hom", "dt": self.dt()}, tag="point1")
             self.add("point", [self.ivec(2)], {"how": "hom", "dt": "c" if rng.random() < 0.5 else "i"}, tag="point1")
+            self.add("point", [[rng.randint(-4, 4), rng.choice([1, 2, -1])]], {"how": "hom", "dt": self.dt()}, tag="point1")
+            self.add("point", [[rng.randint(-4, 4), 1]], {"how": "hom", "dt": "i"}, tag="point1")
+            self.add("transf", [self.invertible(2)], {"dt": rng.choice(["f", "i"])}, tag="transf1")
+            k = rng.choice([2, 3, 64]) if cfg["big_coll"] else rng.choice([2, 3])
+            self.add("pointcoll", [[[rng.randint(-4, 4), 1] for _ in range(k)]], {"dt": self.dt()}, tag="pointcoll1")
+            if rng.random() < 0.5:
+                self.add("transfcoll", [[self.invertible(2) for _ in range(k)]], {"dt": rng.choice(["f", "i"])},
+                         tag="transfcoll1")
         shape = self.coll_shape()
         pc1 = self.pointcoll(d, shape)
         pc2 = self.pointcoll(d, shape if rng.random() < 0.7 else self.coll_shape())
